@@ -290,6 +290,94 @@ class RecurrenceCase(Case):
     return cl
 
 
+class PwlRecurrenceCase(Case):
+  """The real PWL loop body, with the group projections opaque, is Dykstra's recurrence."""
+  contract_key = None
+  xcheck = False
+
+  def body(self, cfg, c):
+    import props.C04 as C04
+    lib = load.mod('pwl_calibration_lib')
+    lo, hi, omc, oxc = C04._lib_bounds(cfg)
+    ln = C04._lengths(cfg)
+    calls = []
+    names = ['_project_bounds_considering_monotonicity', '_approximately_project_bounds_only',
+             '_project_monotonicity', '_project_convexity']
+    saved = {n: getattr(lib, n) for n in names}
+
+    def mk(name):
+      def stub(*args, **kw):
+        if 'bounds' in name:
+          b_in, h_in = kw['bias'], kw['heights']
+          ob = tfc.sym(b_in.a.shape, E.fresh_name('Pb'))
+          oh = tfc.sym(h_in.a.shape, E.fresh_name('Ph'))
+          calls.append((name, (b_in, h_in), (ob, oh)))
+          return ob, oh
+        h_in = kw['heights']
+        oh = tfc.sym(h_in.a.shape, E.fresh_name('Ph'))
+        key = name + (str(kw.get('constraint_group', '')))
+        calls.append((key, (None, h_in), (None, oh)))
+        return oh
+      return stub
+    captured = {}
+    real_while = tfc.while_loop
+    real_fin = lib._finalize_constraints
+
+    def fake_while(cond, body, loop_vars, **k):
+      captured['body'] = body
+      captured['vars'] = loop_vars
+      return loop_vars
+    for n in names:
+      setattr(lib, n, mk(n))
+    tfc.while_loop = fake_while
+    lib._finalize_constraints = lambda **kw: tfc.concat([kw['bias'], kw['heights']], axis=0)
+    try:
+      w0 = tfc.sym([cfg['nk'], cfg['units']], 'w')
+      lib.project_all_constraints(w0, cfg['mono'], lo, hi, omc, oxc, cfg.get('conv', 0), ln, 5)
+      if 'body' not in captured:
+        return [('single-step-configuration (no loop)', E.TRUE)]
+      cnt, b0, h0, lbc, lhc = captured['vars']
+      bias = tfc.sym(b0.a.shape, 'curb')
+      heights = tfc.sym(h0.a.shape, 'curh')
+      lb_in = {k: tfc.sym(b0.a.shape, 'lb%d' % i) for i, k in enumerate(sorted(lbc))}
+      lh_in = {k: tfc.sym(h0.a.shape, 'lh%d' % i) for i, k in enumerate(sorted(lhc))}
+      del calls[:]
+      _, b_out, h_out, lb_out, lh_out = captured['body'](cnt, bias, heights, dict(lb_in), dict(lh_in))
+    finally:
+      for n in names:
+        setattr(lib, n, saved[n])
+      tfc.while_loop = real_while
+      lib._finalize_constraints = real_fin
+
+    def same(a, b):
+      return all((P.lift(x) - P.lift(y)).same(0) for x, y in zip(a.a.flat, b.a.flat))
+
+    def diff(a, b):
+      return tfc.subtract(a, b)
+    cl = [('every-group-projected-exactly-once', B.const(len(calls) == len(lh_in)))]
+    curb, curh = bias, heights
+    used = set()
+    for ci, (name, (b_in, h_in), (ob, oh)) in enumerate(calls):
+      match = None
+      for k in sorted(lh_in):
+        if k in used:
+          continue
+        if same(h_in, diff(curh, lh_in[k])) and (b_in is None or (k in lb_in and same(b_in, diff(curb, lb_in[k])))):
+          match = k
+          break
+      cl.append(('step-%d:%s:rolls-back-its-own-increment' % (ci, name), B.const(match is not None)))
+      if match is None:
+        break
+      used.add(match)
+      ok = same(lh_out[match], diff(oh, h_in)) and (b_in is None or same(lb_out[match], diff(ob, b_in)))
+      cl.append(('step-%d:%s:stores-new-increment' % (ci, name), B.const(ok)))
+      curh = oh
+      if ob is not None:
+        curb = ob
+    cl.append(('result-is-last-projection', B.const(same(h_out, curh) and same(b_out, curb))))
+    return cl
+
+
 def _row_key(r):
   """Rows are compared up to a positive factor."""
   cs = SD.coefficients(P.lift(r))
@@ -300,7 +388,7 @@ def _row_key(r):
   return tuple(sorted((k, v / s) for k, v in cs.items()))
 
 
-CASES = {'group': GroupCase(), 'pwl_group': PwlGroupCase(), 'fixpoint': FixpointCase(),
+CASES = {'pwl_recurrence': PwlRecurrenceCase(), 'group': GroupCase(), 'pwl_group': PwlGroupCase(), 'fixpoint': FixpointCase(),
          'pwl_fixpoint': PwlFixpointCase(), 'recurrence': RecurrenceCase()}
 
 
@@ -370,6 +458,7 @@ def configs(tier, rng):
       continue   # known finding F-C04a lives there; feasibility there is decided in C04
     for nk in ((2, 3) if tier == 'quick' else (2, 3, 4)):
       jobs.append(('pwl_fixpoint', dict(base, nk=nk, units=1 + nk % 2)))
+      jobs.append(('pwl_recurrence', dict(base, nk=nk, units=1 + nk % 2)))
   out, seen = [], set()
   for j in jobs:
     key = json.dumps(j, sort_keys=True)
